@@ -92,6 +92,7 @@ type world struct {
 	ctl       *controller // the task the loop is parked in (nil: not parked)
 	inq       map[int]int // queue entries per timer already reported by a wait
 	inStop    bool
+	cut       bool // the last release was cut short (svc.go: runLoop)
 	closing   bool
 }
 
@@ -221,6 +222,9 @@ func (w *world) callback(k int, args []interface{}) {
 	ti.queued = false
 	if w.svcMode {
 		ti.expect = false // delivered (possibly while the loop was running: never seen in the queue)
+		if w.inq[k] > 0 {
+			w.inq[k]-- // the entry a wait has reported is the one the loop has just taken
+		}
 	}
 	if ti.count > 1 {
 		w.tag("repeat-fired-again")
@@ -350,6 +354,15 @@ func recsTerm(rs []cbRec) hx.T {
 	return hx.C("BRan", l)
 }
 
+// ranTerm: the callbacks of a release (BRanCut: the release was cut short)
+func (w *world) ranTerm() hx.T {
+	t := recsTerm(w.takeRan())
+	if w.cut {
+		t.Name = "BRanCut"
+	}
+	return t
+}
+
 func waitTerm(got []int64, rs []cbRec) hx.T {
 	return hx.C("BWait", got, recsTerm(rs).Args[0])
 }
@@ -454,13 +467,15 @@ func Exec(ops []hx.T) (obs []any, nontrivial bool, tags []string) {
 				wrong(o)
 				continue
 			}
+			w.cut = false
 			w.svcStart()
-			obs = append(obs, recsTerm(w.takeRan()))
+			obs = append(obs, w.ranTerm())
 		case "ORun":
 			if !w.svcMode {
 				wrong(o)
 				continue
 			}
+			w.cut = false
 			if w.alive() {
 				if w.getLife() == lifeDown {
 					w.tag("run-during-teardown")
@@ -469,7 +484,7 @@ func Exec(ops []hx.T) (obs []any, nontrivial bool, tags []string) {
 			} else {
 				w.tag("run-ignored")
 			}
-			obs = append(obs, recsTerm(w.takeRan()))
+			obs = append(obs, w.ranTerm())
 		case "OStopSvc":
 			if !w.svcMode {
 				wrong(o)
